@@ -149,6 +149,27 @@ MUTATIONS = [
     ('c12-pinds-unsorted-search', 'C12', 'abacusnbody/hod/abacus_hod.py', '        pinds = _searchsorted_parallel(hid, phid)', '        pinds = _searchsorted_parallel(hid, phid + 1)'),
     ('c12-no-sort', 'C12', 'abacusnbody/hod/abacus_hod.py', '        if not np.all(hid[:-1] <= hid[1:]):', '        if False and not np.all(hid[:-1] <= hid[1:]):'),
     ('c12-particle-field-swap', 'C12', 'abacusnbody/hod/abacus_hod.py', "                part_deltac = subsample['halo_deltac']\n                    part_fenv = subsample['halo_fenv']", "                part_deltac = subsample['halo_fenv']\n                    part_fenv = subsample['halo_deltac']"),
+    # ---- C19
+    ('c19-empty-guard-removed', 'C19', 'abacusnbody/util.py', '    if N == 0:\n', '    if N == -1:\n'),
+    ('c19-final-index', 'C19', 'abacusnbody/util.py', '    total += arr[-1]\n    if final:\n        out[-1] = total', '    total += arr[-1]\n    if final:\n        out[N - 1 + int(initial)] = total\n        out[N_out] = total'),
+    ('c19-initial-shift', 'C19', 'abacusnbody/util.py', '        out[i + int(initial)] = total', '        out[i + 1] = total'),
+    ('c19-length-check-loose', 'C19', 'abacusnbody/util.py', '    if len(out) != N_out:', '    if len(out) < N_out:'),
+    ('c19-offset-dropped', 'C19', 'abacusnbody/util.py', '    total = dtype(offset)', '    total = dtype(0)'),
+    ('c19-loop-bound', 'C19', 'abacusnbody/util.py', '    for i in range(N - 1):', '    for i in range(N):'),
+    # ---- C11
+    ('c11-kppi-search-before-range', 'C11', 'abacusnbody/analysis/power_spectrum.py',
+     '                if kz2 >= piedges2[-1]:\n                    break\n\n                while kz2 > piedges2[bpi + 1]:\n                    bpi += 1\n',
+     '                while kz2 > piedges2[bpi + 1]:\n                    bpi += 1\n\n                if kz2 >= piedges2[-1]:\n                    break\n'),
+    ('c11-rightwrap-single', 'C11', 'abacusnbody/analysis/tsc.py', '    while x >= L:\n        x -= L', '    if x >= L:\n        x -= L'),
+    ('c11-cumsum-empty', 'C11', 'abacusnbody/util.py', '    if N == 0:\n', '    if N == -1:\n'),
+    ('c11-pack9-short-buffer', 'C11', 'abacusnbody/data/pack9.py', 'sh = np.empty(6, dtype=np.int16)', 'sh = np.empty(5, dtype=np.int16)'),
+    ('c11-rvint-loop-bound', 'C11', 'abacusnbody/data/bitpacked.py', '    vmask = np.uint32(0xFFF)\n\n    for i in range(N):', '    vmask = np.uint32(0xFFF)\n\n    for i in range(N + 1):'),
+    ('c11-zipper-merge-offset', 'C11', 'abacusnbody/data/compaso_halo_catalog.py', '                # fast-forward the write index\n                woff = slab_read_lens[i]\n\n                if pos is not None:', '                # fast-forward the write index\n                woff = slab_read_lens[i] + 1\n\n                if pos is not None:'),
+    ('c11-interp-closed-end', 'C11', 'abacusnbody/analysis/power_spectrum.py', '    elif xd >= x[-1]:\n        return y[-1]', '    elif xd > x[-1]:\n        return y[-1]'),
+    ('c11-concat-shift', 'C11', 'abacusnbody/hod/GRAND_HOD.py', '                final_array[i] = array2[i - N1]', '                final_array[i + 1] = array2[i - N1]'),
+    ('c11-cic-rightwrap', 'C11', 'abacusnbody/analysis/cic.py', '        ixp1 = rightwrap(ix + 1, gx)', '        ixp1 = ix + 1'),
+    ('c11-pids-extra-row', 'C11', 'abacusnbody/data/bitpacked.py', '    half = float_dtype(box / 2)\n\n    for i in range(N):', '    half = float_dtype(box / 2)\n\n    for i in range(N + (N > 0)):'),
+    ('c11-smoothing-kz', 'C11', 'abacusnbody/analysis/power_spectrum.py', '            for k in range(kzlen):\n                kmag2 = dtype(i2 + j2 + k**2)\n                Sk[i, j, k] = np.exp', '            for k in range(kzlen + 1):\n                kmag2 = dtype(i2 + j2 + k**2)\n                Sk[i, j, k] = np.exp'),
     # ---- C17
     ('c17-shared-histogram', 'C17', 'abacusnbody/analysis/tsc.py',
      'counts[t, keys[i]] += 1', 'counts[0, keys[i]] += 1'),
